@@ -31,6 +31,10 @@ func main() {
 	check(err)
 	check(os.MkdirAll(filepath.Join(*dir, "vsync"), 0o755))
 	check(os.WriteFile(filepath.Join(*dir, "vsync", "vsync.go"), src, 0o644))
+	asrc, err := os.ReadFile(filepath.Join(*shim, "vatomic", "vatomic.go"))
+	check(err)
+	check(os.MkdirAll(filepath.Join(*dir, "vsync", "vatomic"), 0o755))
+	check(os.WriteFile(filepath.Join(*dir, "vsync", "vatomic", "vatomic.go"), asrc, 0o644))
 	rewritten, uses := 0, 0
 	for _, p := range strings.Split(*pkgs, ",") {
 		files, err := filepath.Glob(filepath.Join(*dir, p, "*.go"))
@@ -45,12 +49,21 @@ func main() {
 			changed := false
 			for _, im := range af.Imports {
 				path, _ := strconv.Unquote(im.Path.Value)
-				if path != "sync" {
+				if path != "sync" && path != "sync/atomic" {
 					continue
 				}
 				if im.Name != nil && (im.Name.Name == "_" || im.Name.Name == ".") {
-					fmt.Fprintf(os.Stderr, "%s: unsupported import form of sync\n", f)
+					fmt.Fprintf(os.Stderr, "%s: unsupported import form of %s\n", f, path)
 					os.Exit(1)
+				}
+				if path == "sync/atomic" {
+					// atomic operations become scheduling points of the controlled scheduler
+					if im.Name == nil {
+						im.Name = ast.NewIdent("atomic")
+					}
+					im.Path.Value = strconv.Quote("github.com/esimov/gogu/vsync/vatomic")
+					changed = true
+					continue
 				}
 				if im.Name == nil {
 					im.Name = ast.NewIdent("sync")
